@@ -97,6 +97,8 @@ type (
 		Data        signed.Message `json:"data"`
 		PKCounter   uint           `json:"pk"`
 		Accumulator *Accumulator   `json:"-"` // Accumulator contained in this instance, set by UnmarshalVerify()
+
+		verifiedWith *gabikeys.PublicKey // key with which Data was verified when Accumulator was set
 	}
 
 	// Event contains the data clients need to update to the Accumulator of the specified index,
@@ -218,7 +220,8 @@ func (acc *Accumulator) Remove(sk *gabikeys.PrivateKey, e *big.Int, parent *Even
 // UnmarshalVerify verifies the signature and unmarshals the accumulator
 // (c.f. Accumulator.Sign()).
 func (s *SignedAccumulator) UnmarshalVerify(pk *gabikeys.PublicKey) (*Accumulator, error) {
-	if s.Accumulator != nil {
+	// The result of an earlier verification only counts for the key it was verified with
+	if s.Accumulator != nil && s.verifiedWith == pk {
 		return s.Accumulator, nil
 	}
 	msg := &Accumulator{}
@@ -233,6 +236,7 @@ func (s *SignedAccumulator) UnmarshalVerify(pk *gabikeys.PublicKey) (*Accumulato
 	}
 	simhook.Yield("SignedAccumulator.UnmarshalVerify:before-store")
 	s.Accumulator = msg
+	s.verifiedWith = pk
 	return s.Accumulator, nil
 }
 
